@@ -134,8 +134,10 @@ def run(ck: common.Check):
         "FIRST statement matching that pattern (no backtracking), a trailing hole needs at least one statement, a WindowStmt is "
         "matched by an assignment pattern without indices, a WindowExpr by `x[_]`, literals compare by Python == (1 == 1.0 == True), "
         "Alloc patterns ignore the element type",
-        "three code behaviours are NOT part of the spec and are reported as findings: stride(x, 0) acting as stride(x, _), "
-        "Call patterns ignoring their arguments, `_` not honoured in WriteConfig patterns (Model.impl_quirks vs spec_quirks)",
+        "one code behaviour is NOT part of the spec and is reported as finding F-C16-2: Call patterns ignore their arguments "
+        "(Model.impl_quirks.q_callargs; C16_match_impl_refuted / _partial). Two former deviations (stride(x, 0) acting as "
+        "stride(x, _), `_` not honoured in WriteConfig patterns) were repaired in /repo 80472758 / e0571e51; they are kept as "
+        "regression cases (known-witness stream, Proofs_Quirks.regression_*)",
         "patterns with two adjacent statement holes make Python raise AssertionError; the model treats the look-ahead hole as "
         "non-matching (wf_pats characterises the patterns that cannot assert)",
         "the `#n` / name-shorthand regexes are modelled for ASCII input only",
@@ -309,6 +311,18 @@ def run(ck: common.Check):
             ck.log("find mismatch: %s on %r: real %s oracle %s" % (r["api"], r["raw"], real[:200], oracle[:200]))
     if nviol:
         ck.log("search-oracle mismatches by key prefix: %s" % nviol)
+
+    # regression cases of the two repaired deviations (F-C16-1 stride-dim0, F-C16-3 writeconfig-wildcard)
+    expect = {"stride(A, 0)": "(err SchedulingError)", "stride(A, 1)": "(ok ((N ((body 1) (args 2)))))",
+              "_.a = _": "(ok ((N ((body 0)))))", "Cfg._ = _": "(ok ((N ((body 0)))))", "Cfg.a = _": "(ok ((N ((body 0)))))"}
+    for r in finds:
+        if r["stream"] == "known-witness" and r["raw"] in expect:
+            okr = norm(r["real"]) == expect[r["raw"]]
+            ck.obligation("regression:%s" % r["raw"], okr, "" if okr else "real %s expected %s" % (r["real"], expect[r["raw"]]))
+            if not okr:
+                ck.violation("C16:regression:%s" % r["raw"], {"pattern": r["raw"], "real": r["real"], "expected": expect[r["raw"]],
+                                                             "proc_src": procs[r["proc"]]["src"]},
+                             "a repaired matcher deviation is back")
 
     # unparsed / rejected patterns: only the outcome class is recorded
     for r in finds:
